@@ -122,7 +122,15 @@ def implicitSort (m : MultiAgg) : List Expr × SortDir :=
   let cols := m.fns.map (fun nf => Expr.col nf.1 [])
   if m.keyCols.any isTimesliceCol then (Expr.col "_timeslice" [] :: cols, .asc) else (cols, .desc)
 
+/-- the first column name of an aggregation that repeats an earlier one (`names` starts as the key
+headers; `names.contains(&name)` … `names.push(name)` in `convert_multi_agg`) -/
+def dupColumn (seen : List String) : List String → Option String
+  | [] => none
+  | n :: rest => if seen.contains n then some n else dupColumn (seen ++ [n]) rest
+
 def convertMultiAgg (m : MultiAgg) : Static Grouper :=
+  -- the accumulators of a group are kept by column name: every column needs a name of its own
+  if (dupColumn m.headers (m.fns.map (·.1))).isSome then .typeError "DuplicateColumn" else
   let rec fns : List (String × AggFn) → Static (List (String × AggDef))
     | [] => .ok []
     | (n, f) :: rest =>
